@@ -30,6 +30,7 @@ import (
 	"errors"
 	"fmt"
 	"io"
+	"math"
 	"os"
 	"runtime"
 	"sort"
@@ -434,6 +435,12 @@ func (sf *file) ReadAt(p []byte, offset int64) (int, error) {
 		chunkOffset, chunkSize, chunkDigestStr, ok := sf.fr.ChunkEntryForOffset(offset + int64(nr))
 		if !ok {
 			break
+		}
+		// The chunk comes from the (untrusted) TOC: it must contain the position we are reading and, once we are
+		// past the first chunk, start exactly there. Otherwise the buffer arithmetic below goes out of range.
+		if pos := offset + int64(nr); chunkOffset < 0 || chunkSize <= 0 || chunkSize > math.MaxInt64-chunkOffset ||
+			chunkOffset > pos || pos-chunkOffset >= chunkSize || (nr > 0 && chunkOffset != pos) {
+			return 0, fmt.Errorf("invalid chunk (offset=%d, size=%d) for file offset %d", chunkOffset, chunkSize, pos)
 		}
 		var (
 			id           = genID(sf.id, chunkOffset, chunkSize)
